@@ -160,6 +160,9 @@ fn c07_parse_infix() {
             assert!(matches!(**left, Expr::Int { value: 7 }));
             assert!(matches!(**right, Expr::Int { value: MARK }));
             assert!(*operator == want_op);
+            // what the code generator relies on (precondition of the dispatcher obligation O02.ind): an Infix node
+            // never carries a prefix operator or the assignment
+            assert!(!matches!(operator, Op::Not | Op::Negate | Op::Assign));
         }
         _ => assert!(false, "an infix node is expected"),
     }
@@ -191,6 +194,7 @@ fn c07_op_assign() {
                 Expr::Infix { left: l2, operator, right: r2 } => {
                     assert!(matches!(&**l2, Expr::Identifier(n) if n.len() == 1));
                     assert!(*operator == want_op);
+                    assert!(!matches!(operator, Op::Not | Op::Negate | Op::Assign));
                     assert!(matches!(**r2, Expr::Int { value: MARK }));
                 }
                 _ => assert!(false),
